@@ -127,10 +127,13 @@ func sqrtLayers(tier string) []Layer {
 		for _, v := range WVecs(2, S7) {
 			roots = append(roots, wordsToInt(v))
 		}
+		for _, k := range binaryBoundaryRoots {
+			roots = append(roots, big.NewInt(k))
+		}
 		layers = append(layers, Layer{
 			Name:   "Q2-squares",
 			Units:  len(roots),
-			Bounds: "x in {r², r²±1, (10r+5)² (exact tie at digits(r)), (10r+5)²±1} for r in D(3) ∪ R(9) ∪ W(2,S7), both exponent parities; receiver prec in {digits(r)-1, digits(r), digits(r)+1, 2·digits(r)+2}; 6 modes; receiver pre-states fresh/held-longer/-Inf",
+			Bounds: "x in {r², r²±1, (10r+5)² (exact tie at digits(r)), (10r+5)²±1} for r in D(3) ∪ R(9) ∪ W(2,S7) ∪ 15 roots whose squares lie around 2^52..2^64 (float64 / uint64 shortcuts), both exponent parities; receiver prec in {digits(r)-1, digits(r), digits(r)+1, 2·digits(r)+2}; 6 modes; receiver pre-states fresh/held-longer/-Inf",
 			Run: func(c *Ctx, u int) {
 				r := roots[u]
 				dr := uint32(ndigits(r))
@@ -329,3 +332,7 @@ func init() {
 		Layers: sqrtLayers,
 	})
 }
+
+// binaryBoundaryRoots: k with k² around 2^52..2^64, where a square root taken through float64 or
+// uint64 arithmetic rounds k²±1 onto k.
+var binaryBoundaryRoots = []int64{1 << 26, 1<<26 + 1, 1<<26 + 12345, 70000001, 90000000, 94906264, 94906265, 94906266, 99999999, 100000001, 1<<31 + 1, 3037000499, 3037000500, 1<<32 - 1, 1 << 32}
